@@ -39,7 +39,7 @@ func rulesC18(p *Prog, r *Report) {
 	sort.Slice(fns, func(i, j int) bool { return fname(fns[i]) < fname(fns[j]) })
 
 	// R18.1 ---------------------------------------------------------------------------
-	r.Rule("R18.1", "accrual formulas scaled by elapsed seconds succeed only behind elapsed >= 0", 3)
+	r.Rule("R18.1", "accrual formulas scaled by elapsed seconds succeed only behind elapsed >= 0", 2)
 	for _, fn := range fns {
 		if errResultIndex(fn) < 0 {
 			continue
@@ -293,8 +293,28 @@ func rulesC18(p *Prog, r *Report) {
 						continue
 					}
 					for _, a := range c.Common().Args {
-						if u, isU := a.(*ssa.UnOp); isU && u.Op == token.MUL && timeSet[u.X] {
+						u, isU := a.(*ssa.UnOp)
+						if !isU || u.Op != token.MUL {
+							continue
+						}
+						if timeSet[u.X] {
 							refreshing[b] = true
+							continue
+						}
+						// the time base may have been set earlier on the path (hoisted in front of a
+						// branch): every definition of rec.BlockTime reaching this store is the block time
+						if al, isA := u.X.(*ssa.Alloc); isA {
+							if defs, entry := reachingStores(al, []string{"BlockTime"}, u); !entry && len(defs) > 0 {
+								all := true
+								for _, d := range defs {
+									if d.whole || !p.isBlockTimeCall(d.st.Val) {
+										all = false
+									}
+								}
+								if all {
+									refreshing[b] = true
+								}
+							}
 						}
 					}
 				}
